@@ -161,6 +161,9 @@ class Executor(Exec):
             return self.construct_obj(name, args, kw, st, k)
         if name in EXC_NAMES:
             return k(SClosure("exc", name), st)
+        if name == "len" and isinstance(args[0], SOpaqueObj):
+            n = S.obj_fn("len", S.Obj, z3.IntSort())(args[0].ident())
+            return k(I(n), st.fact(n >= 0))
         if name == "len":
             v = args[0]
             mem = None
@@ -206,6 +209,8 @@ class Executor(Exec):
             return k(SPrim("Id", S.Id.IntId(v)), st)
         if name == "cast":
             return k(args[1], st)
+        if name == "print":
+            return k(SNone(), st)
         if name == "super":
             selfv = st.env.get("self")
             cur = st.env.get("__class__")
@@ -348,6 +353,8 @@ class Executor(Exec):
 
     # methods of builtin containers and of program classes
     def call_method(self, recv, name, args, kw, st, k):
+        if isinstance(recv, SPrim) and recv.ty == "str":
+            return k(SOpaque("str." + name), st)          # string formatting is not modelled
         if isinstance(recv, SPrim) and (recv.ty, name) in S.OPAQUE_METHODS:
             ty, f = S.OPAQUE_METHODS[(recv.ty, name)]
             return k(S.wrap(ty, f(recv.t)), st)
@@ -448,8 +455,8 @@ class Executor(Exec):
             txt = ast.unparse(s)
             if txt in checks:
                 def after(st2, _txt=txt):
-                    self.site_check(_txt, checks[_txt], st2)
-                    return self.ex(stmts[1:], st2, k)
+                    st3 = self.site_check(_txt, checks[_txt], st2)
+                    return self.ex(stmts[1:], st3, k)
                 self.sites_seen = getattr(self, "sites_seen", set()) | {txt}
                 return m(s, st, after)
         return m(s, st, lambda st2: self.ex(stmts[1:], st2, k))
@@ -458,6 +465,7 @@ class Executor(Exec):
         from vf.pyvc.spec import PureEval
         goal = PureEval(self, st, dict(st.env), old_st=getattr(self, "entry_st", None)).truth(expr)
         self.vc(f"{self.top_name}.after[{txt}]", st, goal, "assertion at a program point")
+        return st.assume(goal)            # a cut: proved here, available afterwards
 
     def ex_Pass(self, s, st, k): return k(st)
     def ex_Global(self, s, st, k): return k(st)
